@@ -27,6 +27,7 @@ mod refcrypt;
 mod rx_crypt;
 mod exercise;
 mod rx_walk;
+mod rx_bytes;
 
 fn main() {
     let args: Vec<String> = std::env::args().collect();
@@ -58,6 +59,7 @@ fn main() {
         "encoders" => rx_filters::run_encoders(&args[2], &args[3], &opts),
         "crypt" => rx_crypt::run(&args[2], &args[3], &opts),
         "walk" => rx_walk::run(&args[2], &args[3], &opts),
+        "bytes" => rx_bytes::run(&args[2], &args[3], &opts),
         "cache" => rx_cache::run(&args[2], &args[3], &opts),
         "widths" => rx_font::run_widths(&args[2], &args[3], &opts),
         "cmap" => rx_font::run_cmap(&args[2], &args[3], &opts),
